@@ -247,6 +247,39 @@ def s_registered():
     return dict(r=S.pick("r", _R_MENU), td=S.pick("td", _TD_MENU), cx=S.pick("cx", _CX_MENU))
 
 
+# strings whose *characters* stress the emitters and scanners (the look-alike spellings are the text layer's business)
+_TEXT_MENU = ["plain", "caf\u00e9", "\U0001f600 smile", "tab\there", "quote\"s' mix", "back\\slash", " lead", "trail ", "a: b", "# not a comment", "a #b",
+              "- item", "{x}", "%TAG", "\u2028sep", "multi word text", "@at", "`tick", "!bang", "&anchor", "*alias", "|", ">", "?", "''", '""', "nel\x85here", "del\x7fhere", "\u2029para", "bell\x07"]
+
+
+def b_strings():
+    from typing import Dict, List, Optional
+
+    p = _ap()
+    p.add_argument("--s", type=str, default="x")
+    p.add_argument("--os", type=Optional[str], default=None)
+    p.add_argument("--ls", type=List[str], default=[])
+    p.add_argument("--ds", type=Dict[str, str], default={})
+    return p
+
+
+def s_strings():
+    where = S.choice("where", 5)
+    t = S.pick("text", _TEXT_MENU)
+    obj = dict(s="x", os=None, ls=[], ds={})
+    if where == 0:
+        obj["s"] = t
+    elif where == 1:
+        obj["os"] = t
+    elif where == 2:
+        obj["ls"] = [t, "y"]
+    elif where == 3:
+        obj["ds"] = {"k": t}
+    else:
+        obj["ds"] = {t: "v"}
+    return obj
+
+
 def b_union_registered():
     import datetime
     from typing import Optional, Union
@@ -533,6 +566,7 @@ SHAPES = [
     Shape("restricted", b_restricted, s_restricted),
     Shape("registered", b_registered, s_registered, note="native"),
     Shape("union_registered", b_union_registered, s_union_registered, note="native"),
+    Shape("strings", b_strings, s_strings, note="native"),
     Shape("subcommands_empty", b_subcommands_empty, s_subcommands_empty, note="native"),
     Shape("dataclass", b_dataclass, s_dataclass),
     Shape("dataclass_opt", b_dataclass_opt, s_dataclass_opt),
